@@ -145,6 +145,17 @@ impl C02 {
             Some(m) => m,
             None => {
                 ctx.count("mips.ref_unmodelled");
+                // blind-spot accounting: words the lifter accepts but the reference does not model
+                if rng.chance(1, 8) {
+                    let mut bytes = if big { word.to_be_bytes().to_vec() } else { word.to_le_bytes().to_vec() };
+                    bytes.extend_from_slice(&[0, 0, 0, 0]);
+                    let tr = crate::c05::translator(if big { "mips" } else { "mipsel" });
+                    if let Ok(Ok(b)) = guard(|| tr.translate_block(&bytes, 0x40_0000, &Options::default())) {
+                        if !b.instructions().is_empty() {
+                            ctx.count(&format!("mips.falcon_accepts_unmodelled:op{:02x}_fn{:02x}", word >> 26, if word >> 26 == 0 || word >> 26 == 0x1c { word & 0x3f } else { 0 }));
+                        }
+                    }
+                }
                 return;
             }
         };
@@ -387,6 +398,15 @@ impl C02 {
             Some(m) => m,
             None => {
                 ctx.count("ppc.ref_unmodelled");
+                if rng.chance(1, 8) {
+                    let bytes = word.to_be_bytes();
+                    let tr = crate::c05::translator("ppc");
+                    if let Ok(Ok(b)) = guard(|| tr.translate_block(&bytes, 0x40_0000, &Options::default())) {
+                        if !b.instructions().is_empty() {
+                            ctx.count(&format!("ppc.falcon_accepts_unmodelled:op{}_xo{}", word >> 26, if word >> 26 == 31 || word >> 26 == 19 { (word >> 1) & 0x3ff } else { 0 }));
+                        }
+                    }
+                }
                 return;
             }
         };
